@@ -56,9 +56,11 @@ def _dtype_p(p):
 def gen(E, p):
     import z3
     op = p["op"]
-    minlen = 1 if op in ("max", "min", "argmax", "argmin", "mean") else 0
+    minlen = 1 if op in ("argmax", "argmin", "mean") or (op in ("max", "min") and not p.get("empties")) else 0
     R = E.concretize(E.int("R", p.get("Rmin", 0), p["R"]))
     lens = [E.int(f"l{r}", minlen, p["L"]) for r in range(R)]
+    if p.get("empties"):
+        E.assume(z3.Or(*[l > 0 for l in lens]))      # max/min with empty rows present: at least one non-empty row, only those are compared
     S = E.concretize(z3.Sum(lens) if lens else z3.IntVal(0))
     dt = _dtype_p(p)
     if p.get("bvdata"):
@@ -192,7 +194,7 @@ def sym(E, p, kf):
             if p["op"] in ("max", "min"):
                 inrow = exp[r][1]
                 conds.append(z3.And(*[z3.Implies(c, (g >= d if p["op"] == "max" else g <= d)) for c, d in zip(inrow, data)]))
-                conds.append(z3.Or(*[z3.And(c, specs.eqv(g, d)) for c, d in zip(inrow, data)]))
+                conds.append(z3.Or(lens[r] == 0, *[z3.And(c, specs.eqv(g, d)) for c, d in zip(inrow, data)]))      # nothing is claimed for an empty row
             else:
                 conds.append(specs.eqv(g, exp[r]))
     # operand unchanged
@@ -259,7 +261,7 @@ def conc(case):
     if case["via"] in ("none", "npnone"):
         exp = common.ref_scalar(_pyfold(case["op"], [c for r in rows for c in r], dt), "*")
     else:
-        vals = [_pyfold(case["op"], r, dt) for r in rows]
+        vals = [(_pyfold(case["op"], r, dt) if (r or case["op"] not in ("max", "min")) else "?") for r in rows]
         exp = common.ref_array(vals, [len(rows), 1] if case["keepdims"] else [len(rows)], rd)
     # C05 claims the numbers; the element type of the result is C04's subject and not compared here
     if case["op"] == "mean":
@@ -300,6 +302,8 @@ def jobs(tier, seed):
         out.append(dict(base, op=op, via="none", Rmin=1, R=2, L=3))
         out.append(dict(base, op=op, via="method", keepdims=True, Rmin=1, **(dict(R=2, L=2) if q else small)))
     for op in ("max", "min"):
+        out.append(dict(base, op=op, via="method", Rmin=1, empties=True))
+        out.append(dict(base, op=op, via="reduce", Rmin=1, empties=True, R=3))
         for via in ("method", "reduce", "np"):
             out.append(dict(base, op=op, via=via, Rmin=1))
         out.append(dict(base, op=op, via="method", keepdims=True, Rmin=1))
